@@ -838,8 +838,12 @@ Section Honest.
     apply filter_In in H. cbn [fst] in H. destruct H as [_ ->]. apply orb_true_r.
   Qed.
 
-  Lemma observe_costly_reads msgs n : observe_costly g i st msgs = Ok n -> reads g i (c_dest g) = true.
-  Proof. unfold observe_costly. destruct (reads g i (c_dest g)); [reflexivity|discriminate]. Qed.
+  Lemma observe_costly_zero msgs n : observe_costly g i st msgs = Ok n -> n = 0%N.
+  Proof.
+    unfold observe_costly, observe_costly_unfixed. destruct (negb (reads g i (c_dest g))); [now intros [= <-]|].
+    cbn [negb]. repeat match goal with |- (if ?b then _ else _) = _ -> _ => destruct b; try discriminate end;
+    now intros [= <-].
+  Qed.
 
   Theorem exec_honest_valid phase ob :
     observe_exec g i st phase = Ok ob -> validate_exec g i ob = true.
@@ -847,12 +851,11 @@ Section Honest.
     unfold observe_exec, observe_exec_with. destruct (rs_init st); cbn [negb].
     2:{ intros [= <-]. apply eobs_base_valid. }
     destruct (N.eqb phase 0).
-    { unfold observe_commit_reports.
+    { unfold observe_commit_reports_with. cbn [andb].
       destruct (negb (reads g i (c_dest g))); [intros [= <-]; apply eobs_base_valid|].
       destruct (rs_fail st K_CURSE (c_dest g)); [intros [= <-]; apply eobs_base_valid|].
       destruct (rs_cursed_all st); [intros [= <-]; apply eobs_base_valid|].
       destruct (rs_fail st K_REPORTS (c_dest g)); [discriminate|].
-      destruct (negb (forallb _ (rs_reports st))); [discriminate|].
       destruct (existsb _ (rs_reports st)); [discriminate|].
       intros [= <-]. unfold validate_exec, validate_data_eligibility.
       cbn [e_msgs e_commit e_keys_ok e_tokens e_nonces e_costly e_d].
@@ -864,8 +867,8 @@ Section Honest.
       destruct (observe_costly g i st msgs) as [costly| | |] eqn:Ec; cbn [rbind]; try discriminate.
       intros [= <-]. unfold validate_exec, validate_data_eligibility.
       cbn [e_msgs e_commit e_keys_ok e_tokens e_nonces e_costly e_d].
-      now rewrite Hk, observe_disc_valid, values_pending, (read_all_messages_eligible msgs E),
-                  (observe_costly_reads msgs costly Ec). }
+      rewrite Hk, observe_disc_valid, values_pending, (read_all_messages_eligible msgs E),
+              (observe_costly_zero msgs costly Ec). cbn. now rewrite orb_true_r. }
     destruct (N.eqb phase 2); [|discriminate].
     unfold observe_filter.
     destruct (reads g i (c_dest g)) eqn:Hr; cbn [negb]; [|intros [= <-]; apply eobs_base_valid].
@@ -880,11 +883,11 @@ Theorem exec_no_panic g i st phase : observe_exec g i st phase <> Panic.
 Proof.
   unfold observe_exec, observe_exec_with. destruct (rs_init st); cbn [negb]; [|discriminate].
   destruct (N.eqb phase 0).
-  { unfold observe_commit_reports.
+  { unfold observe_commit_reports_with. cbn [andb].
     repeat match goal with |- (if ?b then _ else _) <> _ => destruct b; try discriminate end. }
   destruct (N.eqb phase 1).
   { unfold observe_messages_with. destruct (is_nil (rs_pending st)); [discriminate|].
-    unfold read_all_messages, observe_costly.
+    unfold read_all_messages, observe_costly, observe_costly_unfixed.
     destruct (existsb _ _); cbn [rbind]; [discriminate|].
     destruct (negb (reads g i (c_dest g))); cbn [rbind]; [discriminate|].
     destruct (rs_fail st K_LINK (c_dest g)); cbn [rbind]; [discriminate|].
@@ -899,31 +902,30 @@ Qed.
 Lemma existsb_all_false {A} (f : A -> bool) l : (forall x, f x = false) -> existsb f l = false.
 Proof. intros H. induction l as [|x l IH]; cbn [existsb]; [reflexivity| now rewrite H, IH]. Qed.
 
-(* with every own call succeeding an observation is produced, outside the two recorded classes *)
-Theorem exec_produced_except_known g i st phase :
+(* with every call succeeding an observation is produced, for every role (since the repairs of F18b, F18c, F18d) *)
+Theorem exec_produced g i st phase :
   no_failures st -> dest_priced g st = true -> (phase <= 2)%N ->
-  f18c_class g i st phase = false -> f18d_class g i st phase = false ->
   exists ob, observe_exec g i st phase = Ok ob.
 Proof.
-  intros Hnf Hpr Hp Hc Hd. unfold observe_exec, observe_exec_with.
-  unfold f18c_class in Hc. unfold f18d_class in Hd.
-  destruct (rs_init st); cbn [negb andb] in *; [|eexists; reflexivity].
+  intros Hnf Hpr Hp. unfold observe_exec, observe_exec_with.
+  destruct (rs_init st); cbn [negb]; [|eexists; reflexivity].
   destruct (N.eqb_spec phase 0) as [->|H0].
-  { cbn [N.eqb andb] in Hd. unfold observe_commit_reports. rewrite !Hnf.
-    destruct (reads g i (c_dest g)); cbn [negb andb] in *; [|eexists; reflexivity].
-    destruct (rs_cursed_all st); cbn [negb andb] in *; [eexists; reflexivity|].
-    rewrite Hd. cbn [negb].
+  { unfold observe_commit_reports_with. cbn [andb]. rewrite !Hnf.
+    destruct (negb (reads g i (c_dest g))); [eexists; reflexivity|].
+    destruct (rs_cursed_all st); [eexists; reflexivity|].
     assert (He : existsb (fun p : N * list cdata => rs_fail st K_EXECUTED (fst p)) (rs_reports st) = false).
     { apply existsb_all_false. intros p. apply Hnf. }
     rewrite He. eexists; reflexivity. }
   destruct (N.eqb_spec phase 1) as [->|H1].
-  { cbn [N.eqb andb] in Hc. unfold observe_messages_with.
-    destruct (is_nil (rs_pending st)); cbn [negb andb] in *; [eexists; reflexivity|].
-    unfold read_all_messages, observe_costly. rewrite Hc, Hpr, !Hnf. cbn [negb orb].
+  { unfold observe_messages_with.
+    destruct (is_nil (rs_pending st)); [eexists; reflexivity|].
+    unfold read_all_messages, observe_costly, observe_costly_unfixed. rewrite Hpr, !Hnf. cbn [negb orb].
     assert (He : existsb (fun p : N * list cdata => rs_fail st K_MSGS (fst p))
                          (filter (fun p => reads g i (fst p)) (rs_pending st)) = false).
     { apply existsb_all_false. intros p. apply Hnf. }
-    rewrite He. cbn [rbind]. destruct (is_nil _); cbn [rbind]; eexists; reflexivity. }
+    rewrite He. cbn [rbind].
+    destruct (reads g i (c_dest g)); cbn [negb rbind]; [|eexists; reflexivity].
+    destruct (is_nil _); cbn [rbind]; eexists; reflexivity. }
   destruct (N.eqb_spec phase 2) as [->|H2]; [|lia].
   unfold observe_filter.
   destruct (negb (reads g i (c_dest g))); [eexists; reflexivity|].
@@ -971,8 +973,13 @@ Example c11_exec_example :
     Ok (mkEobs (rs_pending st_c11) [(5%N, 4%N)] true [(5%N, 4%N)] 0 [] (observe_disc g_c11 1 st_c11)) /\
   observe_exec g_c11 0 st_c11 2 =
     Ok (mkEobs [] [] true [] 0 [(5%N, 2%N); (6%N, 1%N)] (observe_disc g_c11 0 st_c11)) /\
-  no_failures st_c11 /\ dest_priced g_c11 st_c11 = true /\
-  f18c_class g_c11 0 st_c11 1 = false /\ f18d_class g_c11 0 st_c11 0 = false.
+  (* oracle 2 (sources only): messages of its chains, every pending report, no costly flags *)
+  observe_exec g_c11 2 st_c11 1 =
+    Ok (mkEobs (rs_pending st_c11) [(5%N, 4%N); (6%N, 2%N)] true [(5%N, 4%N); (6%N, 2%N)] 0 []
+               (observe_disc g_c11 2 st_c11)) /\
+  (* oracle 1 (destination, not source 6): the reports of both sources *)
+  observe_exec g_c11 1 st_c11 0 = Ok (mkEobs (rs_reports st_c11) [] true [] 0 [] (observe_disc g_c11 1 st_c11)) /\
+  no_failures st_c11 /\ dest_priced g_c11 st_c11 = true.
 Proof. repeat split; try (vm_compute; reflexivity). Qed.
 
 (* before the repair of F18a an honest oracle without destination access crashed in the chain-fee observation;
@@ -996,14 +1003,13 @@ Theorem exec_unfixed_refuted :
                  reads g i (c_dest g) = true /\ observe_exec_unfixed g i st 1 = Err.
 Proof. exists g_c11, 1%N, st_c11. repeat split; try (vm_compute; reflexivity). Qed.
 
-(* the full-strength statement is false of the current code: with every call succeeding, oracle 2 (no destination
-   access) produces no GetMessages observation (F18c) and oracle 1 (destination, not source 6) no GetCommitReports
-   observation (F18d) *)
-Theorem exec_refuted :
-  (exists g i st, cfg_ok g i = true /\ values_ok st = true /\ no_failures st /\
-                  f18c_class g i st 1 = true /\ observe_exec g i st 1 = Err) /\
-  (exists g i st, cfg_ok g i = true /\ values_ok st = true /\ no_failures st /\
-                  f18d_class g i st 0 = true /\ observe_exec g i st 0 = Err).
+(* F18c / F18d: before the repairs, with every call succeeding, oracle 2 (no destination access) produced no GetMessages
+   observation and oracle 1 (destination, not source 6) no GetCommitReports observation *)
+Theorem exec_unfixed_cd_refuted :
+  (exists g i st, cfg_ok g i = true /\ values_ok st = true /\ no_failures st /\ dest_priced g st = true /\
+                  f18c_class g i st 1 = true /\ observe_exec_unfixed_c g i st 1 = Err) /\
+  (exists g i st, cfg_ok g i = true /\ values_ok st = true /\ no_failures st /\ dest_priced g st = true /\
+                  f18d_class g i st 0 = true /\ observe_exec_unfixed_d g i st 0 = Err).
 Proof.
   split.
   - exists g_c11, 2%N, st_c11. repeat split; try (vm_compute; reflexivity).
